@@ -259,7 +259,7 @@ pub fn cases(tier: &str) -> Vec<Case> {
     let quick = tier == "quick";
     let mut out = vec![];
     for retention in if quick { vec![1usize, 2, 3] } else { vec![1usize, 2, 3, 4] } {
-        let max_commits = if quick { retention + 2 } else { retention + 3 };
+        let max_commits = if quick { retention + 2 } else { retention + 4 };
         for commits in 1..=max_commits {
             for sent_after in 0..=commits {
                 for writes in 0u32..(1 << (commits + 1)) {
@@ -297,7 +297,7 @@ pub fn meta(tier: &str) -> Meta {
             a.push("a signature re-key of the same member between sending and delivery may be accepted or refused; both count as correct attribution".into());
             a
         },
-        bounds: bounds_json(&[("cases", json!(cases(tier).len())), ("retention", json!(if tier == "quick" { "1,2,3" } else { "1,2,3,4" })), ("max_commits", json!(if tier == "quick" { "R+2" } else { "R+3" }))]),
+        bounds: bounds_json(&[("cases", json!(cases(tier).len())), ("retention", json!(if tier == "quick" { "1,2,3" } else { "1,2,3,4" })), ("max_commits", json!(if tier == "quick" { "R+2" } else { "R+4" }))]),
         required_goals: vec!["message-older-than-retention", "late-message-inside-window"],
         min_outcomes: 6,
         workers: 16,
